@@ -105,37 +105,48 @@ Example C03_mark_deleted_refines_ex :
   map (fun s => byte_at s 0) (mark_deleted ex_dir2 0 3) = [229; 229; 229; 65; 66; 0; 0; 0].
 Proof. vm_compute. repeat split. Qed.
 
-(* ---- rename with the code's order (delete the source slots, then write): the decoding loses exactly the source entry
-   and gains exactly the new one *)
-Theorem C03_rename_slots_refines : forall k free fat32 ss n se es ls e p q ss',
+(* ---- rename with the code's order (since d9f4de8: write the new entry, THEN delete the source slots): the decoding loses
+   exactly the source entry and gains exactly the new one; the new entry never overlaps the slots of the source (they are
+   still in use when it is written), and slots outside both entries are untouched *)
+Theorem C03_rename_slots_refines : forall k free fat32 ss n se es ls e p q ss1,
   dir_scan ss 0 [] fat32 = (es, ls, []) -> len_N ss < 134217728 -> In e es -> sfn_live se ->
-  write_entry k free (mark_deleted ss (e_first_slot e) (e_sfn_slot e + 1)) n se = (Ok (p, q), ss') ->
+  write_entry k free ss n se = (Ok (p, q), ss1) ->
+  let ss' := mark_deleted ss1 (e_first_slot e) (e_sfn_slot e + 1) in
   exists a b c d ne,
     es = a ++ e :: b /\ a ++ b = c ++ d /\ dir_scan ss' 0 [] fat32 = (c ++ ne :: d, ls, []) /\
     e_lfn ne = (if is_dot_name n then [] else utf16_encode n) /\ e_lfn_ok ne = true /\ e_sfn ne = se_name se /\
     e_attr ne = se_attrs se /\ e_size ne = se_size se /\
     e_cluster ne = (if fat32 then se_first_cluster_hi se * 65536 else 0) + se_first_cluster_lo se /\
-    e_first_slot ne = p /\ e_sfn_slot ne + 1 = q.
+    e_first_slot ne = p /\ e_sfn_slot ne + 1 = q /\
+    (q <= e_first_slot e \/ e_sfn_slot e < p) /\
+    (forall i, (i < length ss)%nat -> (N.of_nat i < p \/ q <= N.of_nat i) ->
+               (N.of_nat i < e_first_slot e \/ e_sfn_slot e < N.of_nat i) -> nth_error ss' i = nth_error ss i).
 Proof. exact rename_slots_refines. Qed.
 (* the new short name may be the SOURCE'S OWN: a rename that only changes the spelling of the name (other case, or the
-   entry's alias) keeps the raw short name (src/dir.rs after 46d26a5, D22).  "b" (slots 3-4 of ex_dir2, alias B) rewritten
-   as "B" with the same alias: this is what the library's rename_in_dir does for "b" -> "B" *)
+   entry's alias) keeps the raw short name (src/dir.rs after 46d26a5, D22); between the write and the deletion the
+   directory holds two entries with that short name.  "b" (slots 3-4 of ex_dir2, alias B) rewritten as "B" with the same
+   alias: the new entry goes to the free slots 5-6, then slots 3-4 are deleted - this is what the library's rename_in_dir
+   does for "b" -> "B" *)
 Example C03_rename_slots_refines_ex :
   let e := nth 1 (fst (fst (dir_scan ex_dir2 0 [] false))) (mk_entry [] [] 0 false) in
   In e (fst (fst (dir_scan ex_dir2 0 [] false))) /\
   e_first_slot e = 3 /\ e_sfn_slot e = 4 /\ e_sfn e = ex_alias2 /\ e_lfn e = [98] /\
-  let r := write_entry FixedRoot 0 (mark_deleted ex_dir2 (e_first_slot e) (e_sfn_slot e + 1)) [66] (ex_sfn ex_alias2) in
-  fst r = Ok (3, 5) /\
-  map e_lfn (fst (fst (dir_scan (snd r) 0 [] false))) = [ex_name1; [66]] /\
-  map e_sfn (fst (fst (dir_scan (snd r) 0 [] false))) = [ex_alias1; ex_alias2] /\
-  snd (dir_scan (snd r) 0 [] false) = [] /\
-  rename_in_dir upper_ascii oem_decode_lossy FixedRoot 0 ex_dir2 [98] [66] = (Ok tt, snd r).
+  let w := write_entry FixedRoot 0 ex_dir2 [66] (ex_sfn ex_alias2) in
+  fst w = Ok (5, 7) /\
+  map e_sfn (fst (fst (dir_scan (snd w) 0 [] false))) = [ex_alias1; ex_alias2; ex_alias2] /\
+  let ss' := mark_deleted (snd w) (e_first_slot e) (e_sfn_slot e + 1) in
+  map e_lfn (fst (fst (dir_scan ss' 0 [] false))) = [ex_name1; [66]] /\
+  map e_sfn (fst (fst (dir_scan ss' 0 [] false))) = [ex_alias1; ex_alias2] /\
+  snd (dir_scan ss' 0 [] false) = [] /\
+  map (fun s => byte_at s 0) ss' = [66; 1; 72; 229; 229; 65; 66; 0] /\
+  rename_in_dir upper_ascii oem_decode_lossy FixedRoot 0 ex_dir2 [98] [66] = (Ok tt, ss').
 Proof. cbn zeta. split; [right; left; reflexivity|]. vm_compute. repeat split. Qed.
 
 (* ---- the slot clauses alone ([slots_wf fat32 ss] = the decoder reports no issue for ss): preserved by every successful
    write_entry (whatever the name, wherever the run goes, also when the directory grows) and by deleting any decoded entry;
-   volume labels are untouched.  Failing writes outside validation do NOT preserve them (D5/D20):
-   C01_failed_write_unchanged_refuted in Props/C01.v leaves an orphan run. *)
+   volume labels are untouched.  A write that fails in a FIXED root changes nothing (C01_failed_write_fixed_root_unchanged in
+   Props/C01.v; D5/D20 fixed by 13fd5fe, d9f4de8); one that fails because a CHAIN cannot grow keeps all entries but may leave
+   an orphan run at the end (finding "nospace during entry write": C01_failed_write_unchanged_chain_refuted). *)
 Theorem C03_slot_clauses_preserved :
   (forall k free fat32 ss n e range ss',
      slots_wf fat32 ss -> len_N ss < 134217728 -> sfn_live e ->
